@@ -50,6 +50,7 @@ class BlockServer:
         self.bert_served = 0  # Block2 responses with SZX 7
         self.b1_opt_missing = 0  # Block1 acknowledgements sent without a Block1 option
         self.b2_opt_missing = 0  # later Block2 responses sent without a Block2 option
+        self.size_grown = 0  # non-final Block2 responses in larger blocks than the request asked for / than before
         self.seen = []  # every distinct request: dict(code, b1, b2, plen, t, size1)
         self.transfers = {}  # (src, path) -> Transfer
         self.completed_bodies = []  # (path, bytes) of completely reassembled request bodies
@@ -175,6 +176,18 @@ class BlockServer:
         idx2 = self.b2_count
         if self.reduce_block2_at is not None and idx2 >= self.reduce_block2_at[0] and want_szx > self.reduce_block2_at[1]:
             want_szx = self.reduce_block2_at[1]
+        grew = False
+        if self.misbehave == "b2-size-grows-aligned" and idx2 >= self.misbehave_at and want_off > 0 and want_szx < 6:
+            # where the offset happens to be aligned, a later block is sent in a larger size than the one in use
+            # (well-formed in itself: its number and more-flag fit its size and offset)
+            target = min(want_szx + self.misbehave_arg.get("grow", 1), 6)
+            while target > want_szx and want_off % unit(target):
+                target -= 1
+            grew, want_szx = target > want_szx, target
+        if self.misbehave == "b2-ignores-requested-size" and b2 is not None and want_szx < min(own_szx, 6) and want_off % unit(min(own_szx, 6)) == 0:
+            # the size the client asks for (or the server itself reduced to) is ignored where the offset allows it:
+            # the block comes in the server's own size
+            grew, want_szx = True, min(own_szx, 6)
         u = unit(want_szx)
         size = u * self.bert_blocks if want_szx == 7 else u  # payload bytes per response
         want_num = want_off // u
@@ -241,6 +254,8 @@ class BlockServer:
             if self.changed_first is None:
                 self.changed_first = (code, bytes(payload))
             return (code, opts + ([(rc.ETAG, etag)] if etag and arg.get("etag", True) else []), payload)
+        if grew and more:
+            self.size_grown += 1
         self.served.append((offset, len(chunk)))
         if want_szx == 7:
             self.bert_served += 1
